@@ -4,6 +4,7 @@
 import PCV.Model.Wire
 import PCV.Model.DrvUtil
 import PCV.Model.KZG10
+import PCV.Model.DrvMarlin
 import PCV.Model.DrvC12
 import PCV.Model.DrvC13
 import PCV.Model.DrvC14
@@ -71,7 +72,7 @@ def handle (p : Nat) (r : Req) : String :=
     if r.op.startsWith "kzg." then handleKZG (p := p) r
     else
       let ext : List (Option (Except String String)) :=
-        [DrvC12.handle p r, DrvC13.handle p r, DrvC14.handle p r, DrvC15.handle p r,
+        [DrvMarlin.handle p r, DrvC12.handle p r, DrvC13.handle p r, DrvC14.handle p r, DrvC15.handle p r,
          DrvC16.handle p r, DrvC18.handle p r, DrvC19.handle p r]
       match ext.findSome? id with
       | some x => x
